@@ -633,6 +633,17 @@ func (tr *Trans) binop(x *ssa.BinOp) {
 		if x.Op == token.OR && isUnsigned(rt) {
 			tr.e.assume(tr.rc, and(ge(rr, A), ge(rr, B)))
 		}
+		// sign facts that hold in two's complement whatever the operands are
+		z := intT(0)
+		switch x.Op {
+		case token.OR:
+			tr.e.assume(tr.rc, implies(and(ge(A, z), ge(B, z)), and(ge(rr, A), ge(rr, B), le(rr, add(A, B)))))
+		case token.AND:
+			tr.e.assume(tr.rc, implies(ge(A, z), and(ge(rr, z), le(rr, A))))
+			tr.e.assume(tr.rc, implies(ge(B, z), and(ge(rr, z), le(rr, B))))
+		case token.XOR:
+			tr.e.assume(tr.rc, implies(and(ge(A, z), ge(B, z)), and(ge(rr, z), le(rr, add(A, B)))))
+		}
 		tr.e.note("%s: variable bit operation %s uninterpreted", tr.label, x.Op)
 		set(rr)
 		return
@@ -769,10 +780,16 @@ func (tr *Trans) convert(x *ssa.Convert) {
 		// truncation toward zero; out-of-range is implementation-defined: result assumed in range
 		tt := app(SInt, "to_int", v.C[0])
 		neg := app(SInt, "-", app(SInt, "to_int", app(SReal, "-", v.C[0])))
-		r := tr.e.name("f2i", ite(app(SBool, ">=", v.C[0], Term{"0.0", SReal}), tt, neg))
+		tv := tr.e.name("f2i", ite(app(SBool, ">=", v.C[0], Term{"0.0", SReal}), tt, neg))
 		lo, hi := intRange(to)
-		tr.safety("f2i-range", x, inRange(r, lo, hi))
-		tr.e.assume(tr.rc, inRange(r, lo, hi))
+		// Out of range the conversion does not panic; Go leaves the result to the implementation. amd64 yields the
+		// minimum ("integer indefinite"), arm64 saturates: the result is the minimum below the range and either extreme
+		// above it (an assumption about the platform, listed in DESIGN.md). Nothing is assumed about the operand.
+		r := tr.e.fresh("f2ir", SInt)
+		loT, hiT := bigT(lo), bigT(hi)
+		tr.e.assume(tr.rc, implies(inRange(tv, lo, hi), eq(r, tv)))
+		tr.e.assume(tr.rc, implies(lt(tv, loT), eq(r, loT)))
+		tr.e.assume(tr.rc, implies(gt(tv, hiT), or(eq(r, loT), eq(r, hiT))))
 		tr.setVal(x, Val{T: to, C: []Term{r}})
 	case isFloat(from) && isFloat(to):
 		tr.vals[x] = Val{T: to, C: v.C}
